@@ -188,6 +188,20 @@ func zzMidSegmentSlash(t zzTemplate, args []string) bool {
 	return res
 }
 
+// zzSetHasMidSegmentParam: some template of the set has a parameter followed by static text inside its
+// segment; such a parameter node is cut at its tail characters and may be shared with templates in which
+// the parameter is last in its segment.
+func zzSetHasMidSegmentParam() bool {
+	for _, t := range zzTemplates {
+		for i, pt := range t.Parts {
+			if pt.Param != "" && i+1 < len(t.Parts) && t.Parts[i+1].Param == "" && t.Parts[i+1].Static[0] != '/' {
+				return true
+			}
+		}
+	}
+	return false
+}
+
 func zzLeafSlash(t zzTemplate, args []string) bool {
 	res := false
 	k := 0
@@ -200,6 +214,42 @@ func zzLeafSlash(t zzTemplate, args []string) bool {
 			res = zz.Or(res, containsByte(args[k], '/'))
 		}
 		k++
+	}
+	return res
+}
+
+func commonPrefixLen(a, b string) int {
+	n := 0
+	for n < len(a) && n < len(b) && a[n] == b[n] {
+		n++
+	}
+	return n
+}
+
+// zzSiblingStatic: the path is a strict instance (for this method) of a template T while it runs further
+// along the leading static text of another template T2 than T's own leading static text does - i.e. a
+// parameter value coincides with static text of a sibling template. Region of the recorded finding
+// C05/static-sibling-shadows-parameter.
+func zzSiblingStatic(method, p string) bool {
+	res := false
+	for i, t := range zzTemplates {
+		if _, ok := t.Methods[method]; !ok {
+			continue
+		}
+		mt := zzMatches(t, p, true)
+		for j, o := range zzTemplates {
+			if i == j {
+				continue
+			}
+			s0, o0 := t.Parts[0].Static, o.Parts[0].Static
+			c := commonPrefixLen(s0, o0)
+			for k := c + 1; k <= len(o0) && k <= len(p); k++ {
+				if c < len(s0) {
+					break // T's own static text diverges from T2's before position k: p cannot follow both
+				}
+				res = zz.Or(res, zz.And(mt, zz.EqString(p[:k], o0[:k])))
+			}
+		}
 	}
 	return res
 }
@@ -224,6 +274,7 @@ func checkRequest(method, prefix, p string) int {
 		}
 	}
 	zz.Assert(rec.writes <= 1, "at most one status is written")
+	sibling := zzSiblingStatic(method, p)
 	chosen := -1
 	if found {
 		zz.Cover("findpath-found")
@@ -238,10 +289,15 @@ func checkRequest(method, prefix, p string) int {
 			}
 		}
 		args := route.Args()
+		zz.Observe("route", route.Name())
+		zz.Observe("pattern", route.PathPattern())
+		zz.Observe("args", args)
 		zz.Assert(m == method, "P1: a request reaches an operation only if its method matches")
 		zz.Assert(len(args) == zzParamCount(t), "P1: one argument per template parameter")
+		zz.Known("C05/static-sibling-shadows-parameter", sibling)
 		zz.Assert(zz.EqString(zzInstantiate(t, args), p), "P1: the path is the operation's template instantiated with the extracted arguments")
-		zz.Known("C05/slash-in-midsegment-arg", zzMidSegmentSlash(t, args))
+		zz.Known("C05/static-sibling-shadows-parameter", false)
+		zz.Known("C05/slash-in-midsegment-arg", zz.Or(zzMidSegmentSlash(t, args), zz.And(zzSetHasMidSegmentParam(), zzLeafSlash(t, args))))
 		zz.Assert(zz.Not(zz.Or(zzMidSegmentSlash(t, args), zzLeafSlash(t, args))), "P1': extracted arguments never contain a slash")
 		// P2: a fully static template equal to the path beats templated ones
 		for _, st := range zzTemplates {
@@ -287,7 +343,9 @@ func checkRequest(method, prefix, p string) int {
 				shadow = zz.Or(shadow, zzMatches(t, p, false))
 			}
 		}
+		zz.Known("C05/static-sibling-shadows-parameter", sibling)
 		zz.Assert(zz.Implies(anyStrictWithMethod, zz.And(shadow, rec.status == 405)), "P3: a path that is a strict instance of a template with this method is found (or a matching template without the method answers 405)")
+		zz.Known("C05/static-sibling-shadows-parameter", false)
 		zz.Assert(seen.calls == 0, "P5: no handler runs when FindPath finds nothing")
 		zz.Known("C05/options-204", method == "OPTIONS")
 		switch rec.status {
@@ -305,7 +363,7 @@ func checkRequest(method, prefix, p string) int {
 			}
 			zz.Assert(okAllow, "P4: Allow lists exactly the methods defined for a template matching the path")
 		default:
-			zz.Assert(false, "P4: a request that reaches no operation is answered 404 or 405")
+			zz.Fail("P4: a request that reaches no operation is answered 404 or 405")
 		}
 	}
 	if rec.status == 404 {
@@ -357,7 +415,8 @@ func HInst(tmpl, lens, methodIdx int) {
 	if _, ok := t.Methods[method]; !ok {
 		return
 	}
-	zz.Assert(chosen >= 0, "P3: an instance whose values avoid slashes and tail characters reaches a template")
+	// (not reaching any operation is acceptable only when a more specific matching template lacks the method;
+	// that case is asserted inside checkRequest: P3 with the 405 clause)
 	if chosen >= 0 && chosen != tmpl {
 		zz.Cover("instance-went-to-other-template")
 		// allowed only when that template also matches (checked by P1) - and it must be at least as specific:
